@@ -1,7 +1,10 @@
 (* C10 — A multi-layer image flattens to the single-layer image.
-   Property theorems only; proofs are in Proofs/LayersProofs.v. *)
-From Apko Require Import Base.Prelude Model.Tar Spec.TarSpec Model.Layers Spec.LayersSpec Proofs.LayersProofs.
-From Coq Require Import Sorting.Permutation.
+   Property theorems only; proofs are in Proofs/LayersProofs.v (grouping, each
+   file once), Proofs/LayersChain.v (stack invariant, well-formed layers),
+   Proofs/LayersExtract.v (the extractor read path-wise), Proofs/LayersFlatten.v. *)
+From Apko Require Import Base.Prelude Model.Tar Spec.TarSpec Model.Layers Spec.LayersSpec Proofs.LayersProofs
+  Proofs.LayersChain Proofs.LayersExtract Proofs.LayersFlatten.
+From Coq Require Import Sorting.Permutation Sorting.Sorted.
 Open Scope string_scope. Open Scope list_scope.
 
 (* for every package list, EVERY budget (negative ones included) and every
@@ -100,22 +103,10 @@ Theorem c10_each_file_once : forall gs own es layers,
 Proof. exact split_each_file_once_spec. Qed.
 Print Assumptions c10_each_file_once.
 
-(* c10_flatten / c10_layers_wellformed — NOT proved in full.  Full statements:
-     c10_layers_wellformed : split_layers gs own (walk ev t) = Ok layers -> Forall LayerWellFormed layers
-     c10_flatten : (forall p, is a directory of t -> own p = None) -> split_layers gs own (walk ev t) = Ok layers ->
-                   exists a, apply_layers layers = Ok a /\ canon_forest a = canon_forest t   (t in the C06 envelope)
-   Both need the main-stack / layer-stack chain invariant over the walk (main
-   stack = ancestor chain of the last directory visited; every element of a
-   layer's stack already written to that layer), which I did not get to.
-   Proved instead (c10_flatten_partial): the ingredients that do not need the
-   chain invariant — every entry of the single-layer walk, directories
-   included, is written unchanged to its own layer, so with unowned directories
-   the true metadata of every directory is in the top layer, which is applied
-   last; non-directory entries are written nowhere else; what alignStacks adds
-   is a suffix of the main stack (directories only, with the file's mtime).
-   The equation flatten = single layer itself is COMPUTED by the reference
-   extractor on every emitted layer set in the split stage (validator
-   layers_tags), for the implementation's real output. *)
+(* Ingredients of flattening that hold for ANY list of entries (no order needed):
+   every unowned entry (all directories, in tarfs) is in the top layer unchanged;
+   non-directory entries occur only in their own layer; what alignStacks
+   returns is a suffix of the main stack.  The full statements follow below. *)
 Theorem c10_flatten_partial : forall gs own es layers,
   NoDup (List.concat gs) -> split_layers gs own es = Ok layers ->
   (forall e, In e es -> own (e_path e) = None -> In e (nth (List.length gs) layers [])) /\
@@ -136,6 +127,104 @@ Proof.
   - apply align_suffix.
 Qed.
 Print Assumptions c10_flatten_partial.
+
+(* ---- the envelope: what walkFS hands to splitLayers -------------------------------
+   WalkSeq es (Spec/LayersSpec.v): paths strictly increasing in the fixed order,
+   no entry for the root, a directory entry for the parent of every entry below
+   the top level.  The walk of EVERY tree with distinct child names (they are Go
+   map keys) is such a sequence — hard links, devices, symlinks included. *)
+Theorem c10_walk_in_envelope : forall ev t, wf_names_forest t = true -> WalkSeq (walk ev t).
+Proof. exact walk_WalkSeq. Qed.
+Print Assumptions c10_walk_in_envelope.
+
+(* c10_layers_wellformed (FULL): for every sequence in the envelope, every
+   grouping (any list of name lists, disjoint or not) and every ownership map:
+   if splitLayers returns, then in EVERY layer each entry below the top level is
+   preceded, in that same layer, by a directory entry for its parent, and no
+   path occurs twice in a layer.  (The alignStacks invariant: the main stack is
+   the chain of ancestors of the last directory visited; every element of a
+   layer's stack has been written to that layer; a path already written to a
+   layer and still on the main stack is on the layer's stack.) *)
+Theorem c10_layers_wellformed : forall gs own es layers,
+  WalkSeq es -> split_layers gs own es = Ok layers -> Forall LayerWellFormed layers.
+Proof. exact split_wellformed_spec. Qed.
+Print Assumptions c10_layers_wellformed.
+
+(* c10_flatten: for every sequence in the envelope WITHOUT hard-link entries,
+   every grouping and every ownership map that gives no directory an owner
+   (tarfs: MkdirAll creates directories without a tar entry, so
+   memFileInfo.Package() is nil for them): if splitLayers returns, the reference
+   extractor accepts the layers applied in order, accepts the single layer, and
+   both give the same tree (canonical child order; every node's type, content,
+   mode, owner, mtime, xattrs, link target).  Directories ARE re-emitted in
+   package layers with the triggering file's mtime; the top layer is applied
+   last and carries every directory with its true metadata, which is what the
+   proof uses (the last entry written at each path is the walk's entry).
+   Both side conditions are necessary in the model:
+     c10_flatten_owned_directory_refuted — a directory owned by a package loses its mtime;
+     c10_flatten_split_hardlink_refuted  — a hard link written by an earlier layer
+       than its target cannot be applied in order.
+   NOT covered (hence hard links are excluded): sequences with hard-link entries
+   whose target has the same owner (the only case tarfs produces: a link shares
+   its target's node and therefore its package); computed per run by layers_tags. *)
+Theorem c10_flatten : forall gs own es layers,
+  WalkSeq es -> (forall e, In e es -> e_kind e <> KLink) ->
+  (forall e, In e es -> is_dir e = true -> own (e_path e) = None) ->
+  split_layers gs own es = Ok layers ->
+  exists a b, apply_layers layers = Ok a /\ extract es = Ok b /\ canon_forest a = canon_forest b.
+Proof. exact split_flatten_spec. Qed.
+Print Assumptions c10_flatten.
+
+(* the same for the walk of a tree in the C06 envelope (distinct child names, no
+   additional hard-link names, xattrs only on regular files and directories):
+   the flattened layers ARE the tree *)
+Theorem c10_flatten_walk : forall ev t gs own layers,
+  wf_forest t = true ->
+  (forall e, In e (walk ev t) -> is_dir e = true -> own (e_path e) = None) ->
+  split_layers gs own (walk ev t) = Ok layers ->
+  exists a, apply_layers layers = Ok a /\ canon_forest a = canon_forest t.
+Proof. exact split_flatten_walk. Qed.
+Print Assumptions c10_flatten_walk.
+
+Theorem c10_flatten_owned_directory_refuted :
+  let es := [w_dir ["d"] 5; w_reg ["d"; "x"] 8] in
+  let own := w_own2 ["d"] ["d"; "x"] in
+  exists layers a b, split_layers [["a"]; ["b"]] own es = Ok layers /\
+    apply_layers layers = Ok a /\ extract es = Ok b /\ canon_forest a <> canon_forest b.
+Proof. exact owned_dir_breaks_flatten. Qed.
+Print Assumptions c10_flatten_owned_directory_refuted.
+
+Theorem c10_flatten_split_hardlink_refuted :
+  let es := [w_reg ["b"] 8; w_lnk ["c"] "b"] in
+  let own := w_own2 ["c"] ["b"] in
+  exists layers b, split_layers [["a"]; ["b"]] own es = Ok layers /\
+    extract es = Ok b /\ apply_layers layers = Err.
+Proof. exact split_link_breaks_flatten. Qed.
+Print Assumptions c10_flatten_split_hardlink_refuted.
+
+(* everything the specification asks of the layers, together *)
+Theorem c10_layers_ok : forall gs own es layers,
+  NoDup (List.concat gs) -> WalkSeq es -> (forall e, In e es -> e_kind e <> KLink) ->
+  (forall e, In e es -> is_dir e = true -> own (e_path e) = None) ->
+  split_layers gs own es = Ok layers -> LayersOk gs own es layers.
+Proof. exact split_layers_ok. Qed.
+Print Assumptions c10_layers_ok.
+
+(* the hypotheses are satisfiable: a walk with shared and nested directories,
+   two package layers and an unowned file *)
+Example c10_flatten_example :
+  let t : forest :=
+    [("usr", Dir w_meta [("lib", Dir w_meta [("a", File w_meta (LReg 1 1) None)]);
+                     ("b", File w_meta (LReg 2 1) None); ("z", File w_meta (LSym "b") None)])] in
+  let own p := if path_eqb p ["usr"; "lib"; "a"] then Some "a" else if path_eqb p ["usr"; "b"] then Some "b" else None in
+  wf_forest t = true /\
+  (forall e, In e (walk w_env t) -> is_dir e = true -> own (e_path e) = None) /\
+  exists layers, split_layers [["a"]; ["b"]] own (walk w_env t) = Ok layers /\ List.length layers = 3.
+Proof.
+  split; [reflexivity|]. split.
+  - intros e He Hd. vm_compute in He. repeat (destruct He as [<- | He]; [try reflexivity; discriminate Hd|]). destruct He.
+  - eexists. split; [vm_compute; reflexivity | reflexivity].
+Qed.
 
 Example c10_split_example :
   let d p := {| e_path := p; e_kind := KDir; e_mode := 493; e_uid := 0; e_gid := 0; e_uname := None; e_gname := None;
